@@ -67,7 +67,7 @@ def main():
             meta["confirmed"] = ok
             results = {}
             for c in [pid] + extra:
-                for tier in ("quick", "thorough"):
+                for tier in (("quick",) if os.environ.get("INGEST_TIERS") == "quick" else ("quick", "thorough")):
                     rc, out = run([os.path.join(VERIF, "bin", "check"), c, "--tier", tier], cwd=VERIF, env={**os.environ, "VERIF_REPO": wt}, timeout=4 * 3600)
                     lines = [ln for ln in out.splitlines() if ln.startswith(("VIOLATION", "INCONCLUSIVE"))]
                     results["%s/%s" % (c, tier)] = {"rc": rc, "first": (lines[0] if lines else (out.strip().splitlines() or [""])[-1])[:300]}
